@@ -157,6 +157,10 @@ def check_value(prog, v, res, case):
         res.nontrivial.add(key)
     if mode is None:
         return
+    if E.union_order_conflict(term):
+        res.violation("C01/rt/both-union-orders-in-one-annotation",
+                      f"round trip of {short(v, 100)} as {term.src} fails ({mode}): the annotation holds Union[A, B] and Union[B, A], which typing makes equal", case)
+        return
     # ---- failure: ambiguity excuse, then localisation
     if (term.has_union or term.has_opt) and _has_ambiguous_union(ns, term, v):
         res.hit("ambiguous-union-weak-law")
